@@ -174,7 +174,16 @@ func (s *recStore) GetBulk(ks ...string) ([][]byte, error) {
 	return s.Store.GetBulk(ks...)
 }
 func (s *recStore) Query(e string, o ...spi.QueryOption) (spi.Iterator, error) {
-	*s.log = append(*s.log, recCall{method: "Query", strs: []string{"expr:" + e}})
+	c := recCall{method: "Query", strs: []string{"expr:" + e}}
+	// query options are arguments too: a sort order names a tag
+	var qo spi.QueryOptions
+	for _, opt := range o {
+		opt(&qo)
+	}
+	if qo.SortOptions != nil && qo.SortOptions.TagName != "" {
+		c.strs = append(c.strs, "sortby:"+qo.SortOptions.TagName)
+	}
+	*s.log = append(*s.log, c)
 	return s.Store.Query(e, o...)
 }
 func (s *recStore) Delete(k string) error {
@@ -274,6 +283,8 @@ func (e *c12Env) canonCall(c recCall) string {
 		switch {
 		case strings.HasPrefix(s, "name:"):
 			args = append(args, "name("+strings.TrimPrefix(s, "name:")+")")
+		case strings.HasPrefix(s, "sortby:"):
+			args = append(args, "sortby "+e.canonMAC(strings.TrimPrefix(s, "sortby:")))
 		case strings.HasPrefix(s, "expr:"):
 			ex := strings.TrimPrefix(s, "expr:")
 			p := strings.SplitN(ex, ":", 2)
@@ -470,6 +481,14 @@ func c12Run(input string) string {
 			continue
 		}
 		c11Apply(st, c12Translate(op))
+	}
+	if strings.Contains(parts[1], "query ") {
+		// a query with options: page size and a sort order by tag name (providers that cannot sort refuse; what they were
+		// ASKED is recorded either way)
+		if it, err := st.Query(c12Atoms["a"], spi.WithPageSize(2), spi.WithSortOrder(&spi.SortOptions{Order: spi.SortAscending,
+			TagName: c12Atoms["b"]})); err == nil {
+			_ = it.Close()
+		}
 	}
 	var canon []string
 	e.seenJWE, e.reused = map[string]int{}, false
